@@ -250,6 +250,28 @@ Proof.
   apply gen_bound_cut_for; assumption.
 Qed.
 
+(* cache.subQueryLineage.inherit as translated from the source (both metas non-nil: the translation's
+   [nonnil_pointers] reading - a sub-query without a forked meta has nothing to fold): the first call marks the
+   lineage inherited and leaves in the parent the model's fold of the two cuts; every later call changes nothing *)
+Lemma gen_lineage_inherit : forall (kf : zone -> N) l cp cc,
+  nz (cut_time cp) -> nz (cut_time cc) ->
+  meta_rep kf (T_subQueryLineage_parent l) cp -> meta_rep kf (T_subQueryLineage_child l) cc ->
+  let l' := go_subQueryLineage_inherit l in
+  T_subQueryLineage_inherited l' = true /\ T_subQueryLineage_child l' = T_subQueryLineage_child l /\
+  meta_rep kf (T_subQueryLineage_parent l') (if T_subQueryLineage_inherited l then cp else bound_cut cp cc) /\
+  go_subQueryLineage_inherit l' = l'.
+Proof.
+  intros kf [p c inh] cp cc Hp Hc Rp Rc. unfold go_subQueryLineage_inherit. cbn in *.
+  destruct inh; cbn.
+  - repeat split; try assumption; apply Rp.
+  - pose proof (gen_fold_back kf p c cp cc Hp Hc Rp Rc) as HF. unfold go_ResponseMeta_Cut in *. cbn [fst snd] in *.
+    split; [reflexivity|]. split; [reflexivity|]. split; [exact HF|reflexivity].
+Qed.
+
+(* the constants of the alias chase *)
+Lemma gen_chase_depth : cname_chase_depth = 10 /\ max_cname_chase_depth = 10.
+Proof. split; reflexivity. Qed.
+
 (* cache.CacheEntry.remaining as translated from the source is the model's [ae_remaining]: the entry's
    cutUntil is a time.Time whose zero value ("no cut") is the model's [None] *)
 Definition ae_of (e : T_CacheEntry) : aentry :=
